@@ -84,6 +84,18 @@ Theorem C05_wait_drains : forall sched w entry r xs ks,
 Proof. exact wait_drains_os. Qed.
 Print Assumptions C05_wait_drains.
 
+(* ... and this stays so: in every continuation everything that existed stays destroyed, and every
+   task created later was spawned by an OS thread or by a task that was itself created later — no
+   task that existed at the wait (nor any descendant of it) is alive or appears afterwards *)
+Theorem C05_wait_drains_descendants : forall sched0 w entry r xs ks sched1,
+  let c0 := lc_run sched0 w entry r xs ks in
+  gen_wait_continue (count (fst c0)) false = false ->
+  let c1 := run lc_tstep sched1 c0 in
+  (forall p, p < nextid (fst c0) -> is_destroyed (tst (fst c1) p) = true) /\
+  (forall c p, nextid (fst c0) <= c -> c < nextid (fst c1) -> parent (fst c1) c = Some p -> nextid (fst c0) <= p).
+Proof. exact no_late_descendants. Qed.
+Print Assumptions C05_wait_drains_descendants.
+
 (* wait() called from a task: everything except the caller has been destroyed *)
 Theorem C05_wait_drains_from_task : forall sched w entry r xs ks t self rest,
   let c := lc_run sched w entry r xs ks in
